@@ -75,3 +75,10 @@ Example C14_example :
   snd (h_set_vring_num s0 1 64) = DOk [] /\ snd (h_set_vring_num s0 1 48) = DErr /\ snd (h_set_vring_num s0 2 64) = DErr
   /\ snd (h_set_features s0 (2 ^ 29)) = DOk [] /\ snd (h_set_features s0 1) = DErr.
 Proof. vm_compute. repeat split. Qed.
+
+(* the size test of SET_VRING_NUM REGENERATED from handler.rs on this run (Gen.GenRoute.num_bad), which the model's handler
+   calls: a size is taken exactly when it is non-zero, at most the device maximum and a power of two *)
+From VV Require Import Gen.GenRoute.
+Theorem C14_ring_size_test_regenerated : forall n mx, num_bad n mx = false <-> (n <> 0 /\ n <= mx /\ popcount n = 1).
+Proof. exact num_bad_spec. Qed.
+Print Assumptions C14_ring_size_test_regenerated.
